@@ -411,7 +411,7 @@ def apply(doc, case_seed, i, gen, kinds=None):
                 samplers = [q for q in e.params if isinstance(q, material.Sampler2D)]
                 if samplers and r.random() < 0.5:
                     m.sampler = r.choice(samplers)
-            if r.random() < 0.25:
+            if r.random() < (0.6 if e.bumpmap is not None else 0.2):
                 # the bump map: replaced by another Map object, taken away, or given for the first time
                 samplers = [q for q in e.params if isinstance(q, material.Sampler2D)]
                 e.bumpmap = material.Map(r.choice(samplers), r.choice(['BUMPUV', 'TEX9'])) if samplers and r.random() < 0.7 else None
